@@ -177,7 +177,13 @@ fn sphere<T: Tier + Dom<M = Sh>>(rep: &mut Report) {
     let uq = if rep.quick() { alphabet::uq(0) } else { alphabet::uq(1) };
     let sub: Vec<_> = uq.iter().step_by(rep.pick(1, 5)).copied().collect();
     let axes = alphabet::uv3(false);
-    let cosines: [f64; 10] = [0.96, 0.99, 0.9990, 0.9994, 0.9996, 0.99999, 1.0, -0.9994, -0.9996, -1.0];
+    // (cos theta, sin theta) of the constructed pairs: bracketing the 0.9995 threshold, and arcs so short that the dot
+    // product rounds to 1 in f32 (theta < 2.4e-4) or even in f64 (theta < 1.5e-8) although b is not a
+    let mut cosines: Vec<(f64, f64)> = [0.96, 0.99, 0.9990, 0.9994, 0.9996, 0.99999, 1.0, -0.9994, -0.9996, -1.0].iter().map(|&c: &f64| (c, (1.0 - c * c).max(0.0).sqrt())).collect();
+    for th in [3e-4f64, 1.5e-4, 5e-5, 1e-6, 1e-8] {
+        cosines.push((th.cos(), th.sin()));
+        cosines.push((-th.cos(), th.sin()));
+    }
     let ts: [f64; 6] = [0.0, 0.125, 0.25, 0.5, 0.75, 1.0];
     let n_pairs = sub.len() * sub.len();
     let n_con = sub.len() * cosines.len();
@@ -187,7 +193,7 @@ fn sphere<T: Tier + Dom<M = Sh>>(rep: &mut Report) {
     rep.cases(
         "sphere",
         T::NAME,
-        &format!("all {}x{} pairs of rational unit quaternions + {} constructed pairs b = a*R(axis, theta), cos theta in {:?}; amounts {:?}; nlerp and slerp", sub.len(), sub.len(), n_con, cosines, ts),
+        &format!("all {}x{} pairs of rational unit quaternions + {} constructed pairs b = a*R(axis, theta), (cos theta, sin theta) in {:?}; amounts {:?}; nlerp and slerp", sub.len(), sub.len(), n_con, cosines, ts),
         n_pairs + n_con + n_orth,
         Guard::states(100).distinct(100).need("slerp-regime", 20).need("nlerp-regime", 5).need("negative-dot", 20).need("zero-dot", 1),
         |i, ctx| {
@@ -208,9 +214,8 @@ fn sphere<T: Tier + Dom<M = Sh>>(rep: &mut Report) {
                 (std::array::from_fn(|j| T::q(x.0[j], x.1)), std::array::from_fn(|j| T::q(y.0[j], y.1)))
             } else {
                 let j = i - n_pairs;
-                let (x, ct) = (sub[j / cosines.len()], cosines[j % cosines.len()]);
+                let (x, (ct, st)) = (sub[j / cosines.len()], cosines[j % cosines.len()]);
                 let (an, ad) = axes[j % axes.len()];
-                let st = (1.0 - ct * ct).max(0.0).sqrt();
                 let af: [f64; 4] = std::array::from_fn(|q| x.0[q] as f64 / x.1 as f64);
                 let rot = [ct, st * an[0] as f64 / ad as f64, st * an[1] as f64 / ad as f64, st * an[2] as f64 / ad as f64];
                 let bm = model::qmul(af.map(Sh::exact), rot.map(Sh::exact));
@@ -267,10 +272,12 @@ fn sphere<T: Tier + Dom<M = Sh>>(rep: &mut Report) {
                         if !(d1 + d2 <= whole + base_tol * 4.0 + 1e-12) {
                             fails.push((format!("{name}/on-shorter-arc"), format!("angle(a,r) + angle(r,+-b) = {} > angle(a,+-b) = {whole} at t = {t}", d1 + d2)));
                         }
-                        if t == 0.0 && !(norm4(sub4(rn, af)) <= base_tol) {
+                        // endpoints: a handful of roundings, not the accumulated tolerance of the arc clauses
+                        let end_tol = 64.0 * T::U;
+                        if t == 0.0 && !(norm4(sub4(rn, af)) <= end_tol) {
                             fails.push((format!("{name}/t=0-is-a"), format!("{name}(a,b,0) = {:?}", rf)));
                         }
-                        if t == 1.0 && !(norm4(sub4(rn, bs)) <= base_tol) {
+                        if t == 1.0 && !(norm4(sub4(rn, bs)) <= end_tol) {
                             fails.push((format!("{name}/t=1-is-+-b"), format!("{name}(a,b,1) = {:?}, expected {:?}", rf, bs)));
                         }
                         if name == "slerp" {
